@@ -97,6 +97,22 @@ theorem no_write_failure (st : Pipe.Sys) (h : ∀ w ∈ st.written, w.2 = false)
     rw [List.filter_eq_nil_iff.mpr (fun w hw => by simp [h w hw])]
     rfl
 
+/-- a recorded trace without `cancel` that the step function accepts leads to a `ReachableNC` state -/
+theorem reachableNC_run {cfg : Pipe.Cfg} {inp : Pipe.Input} : ∀ (evs : List Pipe.Event) (s s' : Pipe.Sys),
+    (∀ e ∈ evs, e ≠ Pipe.Event.cancel) → Pipe.ReachableNC cfg inp s → Pipe.run cfg inp s evs = some s' →
+    Pipe.ReachableNC cfg inp s'
+  | [], s, s', _, h, hr => by simp [Pipe.run] at hr; exact hr ▸ h
+  | e :: es, s, s', hne, h, hr => by
+    simp only [Pipe.run] at hr
+    cases hs : Pipe.step cfg inp s e with
+    | none => simp [hs] at hr
+    | some s1 =>
+      rw [hs] at hr
+      exact reachableNC_run es s1 s' (fun e' he' => hne e' (List.mem_cons_of_mem _ he'))
+        (.step h ⟨e, hne e (by simp), hs⟩) hr
+
+instance (s : Pipe.Sys) : Decidable (Pipe.Terminated s) := by unfold Pipe.Terminated; exact inferInstance
+
 /-! ### the passes -/
 
 /-- the decoders of the four fillers -/
